@@ -259,3 +259,206 @@ Example c07_ex_nul_separator :
   read_smodels (mkopts false false) [49;32;49;32;48;32;48;10;48;10;50;0;97;98;10;48;10;66;43;10;48;10;66;45;10;48;10;49;10] =
   ([CInit false; CBegin; CRule 0 [1] []], Err 3).
 Proof. vm_compute. reflexivity. Qed.
+
+(* ================= the reader's atom limit: ProgramReader::setMaxVar(vm) =================
+   The property says "atoms within 1..maxVar".  SmodelsInput reads the atoms of RULES - heads, the bodies of all rule types, the atom
+   of the clasp-extension rules 91 / 92 - and (with the same call) the head COUNT of a choice / disjunctive rule through the member
+   matchAtom, i.e. against the reader's varMax_ (default sm_varMax = atomMax = 2^31-1, changed by setMaxVar); symbol-table, compute
+   and E-section atoms are read with matchPos(atomMax, ..) and do not depend on varMax_ (the code as it is; these deviations from a
+   literal reading of the property are KNOWN FINDINGS - KNOWN_FINDINGS.txt ids maxvar-symbol-table / -compute / -external-section /
+   -head-count, witnesses c07_maxvar_..._refuted at the end of this file, notes/C07.md).
+   Model: read_smodels_v vm (V.C07.Model, Section MaxVar); "in range" relative to vm: Spec.in_range_v / SpecG.gin_range_v.
+   Everything above is the instance vm = sm_varMax - BY CONVERSION (c07_default_is_instance), and every theorem above is now proved
+   as that instance of the corresponding theorem below.  Domain: vm <= atomMax (lit() converts a body atom to int32 unchecked). *)
+Theorem c07_default_is_instance :
+  sm_varMax = atomMax /\ read_smodels = read_smodels_v sm_varMax /\
+  in_range = in_range_v sm_varMax /\ gin_range = gin_range_v sm_varMax.
+Proof. repeat split; reflexivity. Qed.
+Print Assumptions c07_default_is_instance.
+
+(* writers' layout: a text whose numbers all fit - rule atoms and head counts within 1..vm - is accepted and delivers the denoted calls *)
+Theorem c07_maxvar_complete : forall (vm : Z) (o : opts) (p : lprog), vm <= atomMax ->
+  layout_ok p = true -> in_range_v vm (claspExt o) p = true -> read_smodels_v vm o (render p) = (denote p, Ok tt).
+Proof. intros vm o p Hvm. apply complete_v. unfold atomMax, INT64_MAX in *. lia. Qed.
+Print Assumptions c07_maxvar_complete.
+
+(* ... and refused with an error as soon as one number does not fit - in particular a rule atom or head count above vm *)
+Theorem c07_maxvar_rejects : forall (vm : Z) (o : opts) (p : lprog), vm <= atomMax ->
+  layout_ok p = true -> in_range_v vm (claspExt o) p = false -> exists cs ln, read_smodels_v vm o (render p) = (cs, Err ln).
+Proof. intros vm o p Hvm. apply rejects_v. unfold atomMax, INT64_MAX in *. lia. Qed.
+Print Assumptions c07_maxvar_rejects.
+
+(* the instance the seeded change C07-r8 breaks: an atom above the limit in the NORMAL body of a basic / choice / disjunctive rule
+   (or in its head / as its head count) => error, also when the atom is a perfectly good atom <= 2^31-1 *)
+Theorem c07_maxvar_rejects_body_atom : forall (vm : Z) (o : opts) p s a, vm <= atomMax ->
+  layout_ok p = true -> In s (p_steps p) -> vm < snd a ->
+  (exists tw h b, In (RBasic tw h b) (s_rules s) /\ (a = h \/ In a (b_atoms b))) \/
+  (exists c tw nw hs b, In (RMulti c tw nw hs b) (s_rules s) /\ (In a hs \/ In a (b_atoms b) \/ snd a = Z.of_nat (length hs))) ->
+  exists cs ln, read_smodels_v vm o (render p) = (cs, Err ln).
+Proof.
+  intros vm o p s a Hvm Hl Hs Hbig Hwhere. apply c07_maxvar_rejects; [exact Hvm | exact Hl|].
+  assert (Ha : ratom_in vm a = false) by (unfold ratom_in; apply andb_false_intro2; apply Z.leb_gt; exact Hbig).
+  destruct Hwhere as [(tw & h & b & Hr & [-> | Hb]) | (c & tw & nw & hs & b & Hr & [Hh | [Hb | Hn]])];
+    (eapply in_range_rule_false_v; [exact Hs | exact Hr|]); cbn [rule_in_v].
+  - rewrite Ha. reflexivity.
+  - rewrite (forallb_false_in (ratom_in vm) _ a Hb Ha). rewrite ?andb_false_r. reflexivity.
+  - rewrite (forallb_false_in (ratom_in vm) _ a Hh Ha). rewrite ?andb_false_r. reflexivity.
+  - rewrite (forallb_false_in (ratom_in vm) _ a Hb Ha). rewrite ?andb_false_r. reflexivity.
+  - assert (E : (Z.of_nat (length hs) <=? vm) = false) by (apply Z.leb_gt; rewrite <- Hn; exact Hbig).
+    rewrite E. rewrite ?andb_false_r. reflexivity.
+Qed.
+Print Assumptions c07_maxvar_rejects_body_atom.
+
+(* ARBITRARY byte strings: soundness (no hypothesis on vm at all), completeness, exactness, denotation, rejection *)
+Theorem c07_maxvar_sound : forall (vm : Z) (o : opts) (t : list Z) (cs : list call),
+  read_smodels_v vm o t = (cs, Ok tt) ->
+  exists p : gprog, glayout_ok p = true /\ gin_range_v vm (claspExt o) p = true /\ t = grender p /\ cs = gdenote p.
+Proof. exact V.C07.ProofsGSound.g_sound_v. Qed.
+Print Assumptions c07_maxvar_sound.
+
+Theorem c07_maxvar_gcomplete : forall (vm : Z) (o : opts) (p : gprog), vm <= atomMax ->
+  glayout_ok p = true -> gin_range_v vm (claspExt o) p = true -> read_smodels_v vm o (grender p) = (gdenote p, Ok tt).
+Proof. intros vm o p Hvm. apply V.C07.ProofsGComplete2.g_complete_v. unfold atomMax, INT64_MAX in *. lia. Qed.
+Print Assumptions c07_maxvar_gcomplete.
+
+Theorem c07_maxvar_exact : forall (vm : Z) (o : opts) (t : list Z), vm <= atomMax ->
+  ((exists cs, read_smodels_v vm o t = (cs, Ok tt)) <->
+   (exists p : gprog, glayout_ok p = true /\ gin_range_v vm (claspExt o) p = true /\ t = grender p)).
+Proof. intros vm o t Hvm. exact (V.C07.ProofsGTop.g_exact_v vm Hvm o t). Qed.
+Print Assumptions c07_maxvar_exact.
+
+Theorem c07_maxvar_denotes : forall (vm : Z) (o : opts) (t : list Z) (cs : list call), vm <= atomMax ->
+  read_smodels_v vm o t = (cs, Ok tt) ->
+  (exists p, (glayout_ok p = true /\ gin_range_v vm (claspExt o) p = true /\ t = grender p) /\ cs = gdenote p) /\
+  (forall p, glayout_ok p = true /\ gin_range_v vm (claspExt o) p = true /\ t = grender p -> cs = gdenote p).
+Proof. intros vm o t cs Hvm. exact (V.C07.ProofsGTop.g_denotes_v vm Hvm o t cs). Qed.
+Print Assumptions c07_maxvar_denotes.
+
+Theorem c07_maxvar_rejects_exact : forall (vm : Z) (o : opts) (t : list Z), vm <= atomMax ->
+  ~ (exists p : gprog, glayout_ok p = true /\ gin_range_v vm (claspExt o) p = true /\ t = grender p) ->
+  exists cs ln, read_smodels_v vm o t = (cs, Err ln).
+Proof. intros vm o t Hvm. exact (V.C07.ProofsGTop.g_rejects_v vm Hvm o t). Qed.
+Print Assumptions c07_maxvar_rejects_exact.
+
+(* a limit only removes texts: whatever the reader with limit vm accepts, the reader without a configured limit accepts, with the same calls *)
+Theorem c07_maxvar_only_removes : forall (vm : Z) (o : opts) (t : list Z) (cs : list call), vm <= atomMax ->
+  read_smodels_v vm o t = (cs, Ok tt) -> read_smodels o t = (cs, Ok tt).
+Proof. intros vm o t cs Hvm. exact (V.C07.ProofsGTop.g_limit_only_removes vm Hvm o t cs). Qed.
+Print Assumptions c07_maxvar_only_removes.
+
+(* EVERY byte list, every limit vm <= atomMax: consumer contract, closed steps, no fuel exhaustion, error line inside the text *)
+Theorem c07_maxvar_delivered : forall (vm : Z) (o : opts) (t : list Z), vm <= atomMax ->
+  protocol_ok 0 (fst (read_smodels_v vm o t)) = true /\
+  (forall c, In c (fst (read_smodels_v vm o t)) ->
+     match c with
+     | CMin p l => 0 <= p <= Z.of_nat (length t) /\ forallb (wlit_ok false) l = true
+     | _ => call_ok c = true
+     end).
+Proof. intros vm o t Hvm. exact (V.C07.ProofsContract.delivered_calls_v vm Hvm o t). Qed.
+Print Assumptions c07_maxvar_delivered.
+
+Theorem c07_maxvar_contract : forall (vm : Z) (o : opts) (t : list Z), vm <= atomMax ->
+  Z.of_nat (length t) < 2 ^ 31 -> contract_ok (fst (read_smodels_v vm o t)) = true.
+Proof. intros vm o t Hvm. exact (V.C07.ProofsContract.reader_contract_v vm Hvm o t). Qed.
+Print Assumptions c07_maxvar_contract.
+
+Theorem c07_maxvar_total : forall (vm : Z) (o : opts) (t : list Z), vm <= atomMax ->
+  snd (read_smodels_v vm o t) <> Fuel /\
+  (forall u, snd (read_smodels_v vm o t) = Ok u -> steps_closed (fst (read_smodels_v vm o t)) = true) /\
+  (forall ln, snd (read_smodels_v vm o t) = Err ln -> 1 <= ln <= 1 + V.C07.ProofsStream.nl t).
+Proof.
+  intros vm o t Hvm. split; [exact (V.C07.ProofsContract.no_fuel_exhaustion_v vm Hvm o t)|]. split.
+  - intros u. exact (V.C07.ProofsContract.reader_steps_closed_v vm Hvm o t u).
+  - intros ln. exact (V.C07.ProofsContract.line_bound_v vm Hvm o t ln).
+Qed.
+Print Assumptions c07_maxvar_total.
+
+(* non-vacuity.  `1 2 1 0 5` (rule 2 :- 5) and a symbol-table entry for atom 7:  limit 5: accepted;  limit 4: the body atom 5 is
+   refused on line 1 (layout fine, out of range);  the symbol-table atom 7 is above both limits and accepted (matchPos(atomMax));
+   a choice rule with 3 heads `3 3 1 1 1 0 0` under limit 2 is refused because of its head COUNT;  run_case decodes the limit
+   from the trailer behind the text (0 / absent = no setMaxVar, -1 = setMaxVar(0)) *)
+Definition ex_mv : lprog :=
+  mkprog [mkstep [RBasic [] (sp, 2) (mkbody sp (sp, 0) [(sp, 5)])] nl [mksym (nl, 7) 32 [97]] nl [] [] nl [] [] nl None (nl, 1)] nl.
+Definition ex_mv3 : lprog :=
+  mkprog [mkstep [RMulti true [] sp [(sp, 1); (sp, 1); (sp, 1)] (mkbody sp (sp, 0) [])] nl [] nl [] [] nl [] [] nl None (nl, 1)] nl.
+Example c07_ex_maxvar :
+  layout_ok ex_mv = true /\ in_range_v 5 false ex_mv = true /\ in_range_v 4 false ex_mv = false /\
+  read_smodels_v 5 (mkopts false false) (render ex_mv) = ([CInit false; CBegin; CRule 0 [2] [5]; COutput [97] [7]; CEnd], Ok tt) /\
+  read_smodels_v 4 (mkopts false false) (render ex_mv) = ([CInit false; CBegin], Err 1) /\
+  layout_ok ex_mv3 = true /\ in_range_v 3 false ex_mv3 = true /\ in_range_v 2 false ex_mv3 = false /\
+  snd (read_smodels_v 2 (mkopts false false) (render ex_mv3)) = Err 1 /\
+  run_case ([4096; 0; 9] ++ [49; 32; 50; 32; 49; 32; 48; 32; 53] ++ [4]) = [1; 0; 2; 0; 1; 1] /\
+  run_case ([4096; 0; 9] ++ [49; 32; 50; 32; 49; 32; 48; 32; 53]) = [1; 0; 2; 4; 0; 1; 2; 1; 5; 0; 1; 1].
+Proof. repeat split; vm_compute; reflexivity. Qed.
+
+(* ================= KNOWN FINDINGS about the limit (KNOWN_FINDINGS.txt: maxvar-symbol-table, maxvar-compute, maxvar-external-section,
+   maxvar-head-count; recorded, not repaired) =================
+   The property text says "atoms within 1..maxVar".  The positive theorems above (c07_maxvar_complete ... c07_maxvar_total) say precisely which positions the limit
+   covers IN THE CODE: in_range_v / gin_range_v use [ratom_in vm] / [gratom_in vm] for the head atoms, body atoms and 91 / 92 atoms of
+   rules AND for the head COUNT of a choice / disjunctive rule (RMulti / GMulti), but [atom_in] / [gatom_in] (<= atomMax, independent of vm)
+   for symbol-table atoms, the atoms of B+ / B- and of the E section.  Read literally - the limit applies to every atom and to no count -
+   the property is REFUTED by the faithful model on these four shapes (witnesses by vm_compute; the same inputs are fixed cases of the
+   correspondence run, where the real reader behaves like the model and the oracle reports them under the known signatures
+   max-var-not-applied:symbol-table | compute | external-section and head-count-checked-against-max-var). *)
+Definition ex_rf (syms : list lsym) (bp bm : list num) (e : option (list Z * list num * list Z)) : lprog :=
+  mkprog [mkstep [] [] syms nl [] bp nl [] bm nl e (nl, 1)] nl.
+
+(* a symbol-table atom above the limit is accepted, and its output delivered:  setMaxVar(4), "0\n5 a\n0\nB+\n0\nB-\n0\n1\n" *)
+Theorem c07_maxvar_symbol_atom_refuted : exists (vm : Z) (p : lprog) (cs : list call),
+  vm <= atomMax /\ layout_ok p = true /\
+  (exists s y, In s (p_steps p) /\ In y (s_syms s) /\ vm < snd (y_atom y)) /\
+  read_smodels_v vm (mkopts false false) (render p) = (cs, Ok tt) /\ In (COutput [97] [5]) cs.
+Proof.
+  exists 4, (ex_rf [mksym (nl, 5) 32 [97]] [] [] None), [CInit false; CBegin; COutput [97] [5]; CEnd].
+  split; [vm_compute; discriminate|]. split; [vm_compute; reflexivity|]. split.
+  - eexists _, (mksym (nl, 5) 32 [97]). split; [left; reflexivity|]. split; [left; reflexivity | vm_compute; reflexivity].
+  - split; [vm_compute; reflexivity | right; right; left; reflexivity].
+Qed.
+Print Assumptions c07_maxvar_symbol_atom_refuted.
+
+(* an atom of B+ (and of B-) above the limit is accepted and delivered as an integrity constraint *)
+Theorem c07_maxvar_compute_atom_refuted : exists (vm : Z) (p q : lprog),
+  vm <= atomMax /\ layout_ok p = true /\ layout_ok q = true /\
+  (exists s a, In s (p_steps p) /\ In a (s_bplus s) /\ vm < snd a) /\ (exists s a, In s (p_steps q) /\ In a (s_bminus s) /\ vm < snd a) /\
+  read_smodels_v vm (mkopts false false) (render p) = ([CInit false; CBegin; CRule Head_t_Disjunctive [] [-5]; CEnd], Ok tt) /\
+  read_smodels_v vm (mkopts false false) (render q) = ([CInit false; CBegin; CRule Head_t_Disjunctive [] [5]; CEnd], Ok tt).
+Proof.
+  exists 4, (ex_rf [] [(nl, 5)] [] None), (ex_rf [] [] [(nl, 5)] None).
+  split; [vm_compute; discriminate|]. split; [vm_compute; reflexivity|]. split; [vm_compute; reflexivity|]. split.
+  { eexists _, (nl, 5). split; [left; reflexivity|]. split; [left; reflexivity | vm_compute; reflexivity]. }
+  split.
+  { eexists _, (nl, 5). split; [left; reflexivity|]. split; [left; reflexivity | vm_compute; reflexivity]. }
+  split; vm_compute; reflexivity.
+Qed.
+Print Assumptions c07_maxvar_compute_atom_refuted.
+
+(* an atom of the E section above the limit is accepted and delivered as a free external *)
+Theorem c07_maxvar_external_atom_refuted : exists (vm : Z) (p : lprog),
+  vm <= atomMax /\ layout_ok p = true /\
+  (exists s w l z a, In s (p_steps p) /\ s_ext s = Some (w, l, z) /\ In a l /\ vm < snd a) /\
+  read_smodels_v vm (mkopts false false) (render p) = ([CInit false; CBegin; CExternal 5 Value_t_Free; CEnd], Ok tt).
+Proof.
+  exists 4, (ex_rf [] [] [] (Some (nl, [(nl, 5)], nl))).
+  split; [vm_compute; discriminate|]. split; [vm_compute; reflexivity|]. split.
+  - eexists _, nl, [(nl, 5)], nl, (nl, 5). split; [left; reflexivity|]. split; [reflexivity|]. split; [left; reflexivity | vm_compute; reflexivity].
+  - vm_compute. reflexivity.
+Qed.
+Print Assumptions c07_maxvar_external_atom_refuted.
+
+(* a well-formed choice rule all of whose atoms are within the limit is refused because it lists more head atoms than the limit:
+   setMaxVar(4), "3 5 1 1 1 1 1 0 0\n0\n0\nB+\n0\nB-\n0\n1\n"; without a limit the same text is accepted *)
+Theorem c07_maxvar_head_count_refuted : exists (vm : Z) (tw nw : list Z) (hs : list num) (b : lbody) (p : lprog),
+  vm <= atomMax /\ layout_ok p = true /\ in_range false p = true /\
+  p_steps p = [mkstep [RMulti true tw nw hs b] nl [] nl [] [] nl [] [] nl None (nl, 1)] /\
+  forallb (ratom_in vm) hs = true /\ b_atoms b = [] /\ vm < Z.of_nat (length hs) /\
+  (exists cs ln, read_smodels_v vm (mkopts false false) (render p) = (cs, Err ln)) /\
+  read_smodels (mkopts false false) (render p) = (denote p, Ok tt).
+Proof.
+  exists 4, [], sp, [(sp, 1); (sp, 1); (sp, 1); (sp, 1); (sp, 1)], (mkbody sp (sp, 0) []),
+    (mkprog [mkstep [RMulti true [] sp [(sp, 1); (sp, 1); (sp, 1); (sp, 1); (sp, 1)] (mkbody sp (sp, 0) [])] nl [] nl [] [] nl [] [] nl None (nl, 1)] nl).
+  split; [vm_compute; discriminate|]. split; [vm_compute; reflexivity|]. split; [vm_compute; reflexivity|]. split; [reflexivity|].
+  split; [vm_compute; reflexivity|]. split; [reflexivity|]. split; [vm_compute; reflexivity|]. split.
+  - eexists _, 1. vm_compute. reflexivity.
+  - vm_compute. reflexivity.
+Qed.
+Print Assumptions c07_maxvar_head_count_refuted.
